@@ -45,6 +45,8 @@ const (
 	fV1Decoded
 	fV2Decoded
 	fBig
+	fBigSigned // signed v2, 255-byte payload: the longest possible frame (280 bytes)
+	fSigned243 // signed v2, 243-byte payload
 	// unencodable
 	fBadV1BigID
 	fBadOutside
@@ -52,7 +54,7 @@ const (
 	nFrames
 )
 
-var frameNames = []string{"v1raw", "v2raw", "v2signed", "v1decoded", "v2decoded", "v2raw255", "BAD:v1id300", "BAD:outside-dialect", "BAD:nil-message"}
+var frameNames = []string{"v1raw", "v2raw", "v2signed", "v1decoded", "v2decoded", "v2raw255", "v2signed255", "v2signed243", "BAD:v1id300", "BAD:outside-dialect", "BAD:nil-message"}
 
 // mkFrame builds the gomavlib frame and its reference wire form (nil when unencodable).
 func mkFrame(kind int, withDialect bool) (frame.Frame, []byte) {
@@ -83,6 +85,18 @@ func mkFrame(kind int, withDialect bool) (frame.Frame, []byte) {
 			p[i] = byte(255 - i)
 		}
 		f := &ref.Frame{V2: true, Seq: 1, Sys: 2, Comp: 3, ID: 70002, Payload: p, Checksum: 1}
+		return gm.FromRef(f), f.Bytes()
+	case fBigSigned, fSigned243:
+		n := 255
+		if kind == fSigned243 {
+			n = 243
+		}
+		p := make([]byte, n)
+		for i := range p {
+			p[i] = byte(i*7 + 1)
+		}
+		f := &ref.Frame{V2: true, Incompat: 1, Seq: 9, Sys: 2, Comp: 3, ID: 70003, Payload: p, Checksum: 0xABCD, LinkID: 7, Timestamp: 1 << 40}
+		f.Sig = f.Sign(sigKey)
 		return gm.FromRef(f), f.Bytes()
 	case fBadV1BigID:
 		return &frame.V1Frame{Message: &message.MessageRaw{ID: 300, Payload: []byte{1}}}, nil
@@ -353,7 +367,8 @@ func main() {
 		for _, a := range tri {
 			for _, b := range tri {
 				for _, c := range tri {
-					cases = append(cases, lcase{Dialect: dial, Entries: []ent{a, b, c}, Prefix: r.Thorough() || (a.F != fBig && b.F != fBig && c.F != fBig)})
+					big := func(f int) bool { return f == fBig || f == fBigSigned || f == fSigned243 }
+					cases = append(cases, lcase{Dialect: dial, Entries: []ent{a, b, c}, Prefix: r.Thorough() || !(big(a.F) || big(b.F) || big(c.F))})
 				}
 			}
 		}
